@@ -10,20 +10,27 @@ EXTENDS BinaryFormat
 
 Rec == ndJsonDeserialize(IOEnv.TRACE)
 Dialect == IOEnv.DIALECT
+\* which clauses to evaluate: "all", or "roundtrip" (skip the byte-level decoding of the files)
+Want == IF "CLAUSES" \in DOMAIN IOEnv THEN IOEnv.CLAUSES ELSE "all"
 
 VARIABLE l
 Ev == Rec[l]
 
 Modes == <<"none", "lz4", "zstd">>
 M(m) == Ev.modes[m]
-HasFile(m) == "chunks" \in DOMAIN M(m).file
+HasFile(m) == Want = "all" /\ "file" \in DOMAIN M(m) /\ "chunks" \in DOMAIN M(m).file
+ModeSet == {k \in 1..3 : Modes[k] \in DOMAIN Ev.modes}
 
 Report(name, issues) == PrintT(<<"CASEFAIL", ToJson([line |-> l, ep |-> Ev.ep, clause |-> name, issues |-> issues])>>)
 Clause(name, holds) == IF holds THEN TRUE ELSE Report(name, {})
 
 CheckCase ==
-    /\ \A k \in 1..3 : Clause("write-" \o Modes[k], M(Modes[k]).write = "ok")
-    /\ \A k \in 1..3 : M(Modes[k]).write = "ok" =>
+    \* C08: a population serializes whenever each of its instances serializes on its own
+    /\ \A k \in ModeSet : Clause("write-" \o Modes[k],
+                               IF "singles" \in DOMAIN Ev
+                               THEN (\A i \in 1..Len(Ev.singles) : Ev.singles[i] = "ok") => M(Modes[k]).write = "ok"
+                               ELSE M(Modes[k]).write = "ok")
+    /\ \A k \in ModeSet : M(Modes[k]).write = "ok" =>
           /\ Clause("read-" \o Modes[k], M(Modes[k]).read = "ok")
           /\ M(Modes[k]).read = "ok" =>
                 /\ Clause("rootclass-" \o Modes[k], M(Modes[k]).root_class = "DataModel")
@@ -39,7 +46,7 @@ CheckCase ==
                           \A i \in 1..(Len(M(Modes[k]).file.chunks) - 1) :
                               M(Modes[k]).file.chunks[i].method = Modes[k])
     \* the three compression modes carry byte-identical chunk data
-    /\ (\A k \in 1..3 : M(Modes[k]).write = "ok" /\ HasFile(Modes[k])) =>
+    /\ (ModeSet = 1..3 /\ \A k \in 1..3 : M(Modes[k]).write = "ok" /\ HasFile(Modes[k])) =>
           Clause("same-payload",
                  \A k \in 2..3 :
                     /\ Len(M(Modes[k]).file.chunks) = Len(M("none").file.chunks)
